@@ -107,7 +107,7 @@ pub fn main_with(find: fn(&str) -> Option<Prop>) -> i32 {
                 Ok(Verdict::Skipped(r)) => ("skipped", r.to_string(), None),
                 Ok(Verdict::Inconclusive(r)) => ("inconclusive", r, None),
                 Ok(Verdict::Violated(m)) => {
-                    let k = prop.known.and_then(|f| f(&case, &m));
+                    let k = prop.known.and_then(|f| std::panic::catch_unwind(std::panic::AssertUnwindSafe(|| f(&case, &m))).ok().flatten());
                     ("violated", m, k)
                 }
                 Err(_) => {
